@@ -78,6 +78,24 @@ def keyed_content(key, length):
     return bytes(out[:length])
 
 
+def degenerate_content(key, length, kind):
+    """content classes a content-sensitive shortcut would treat specially: 'zeros', 'ones', 'sparse' (keyed bytes with
+    zero runs aligned to 512-byte sectors, whole 64 KiB holes, and a zero tail)"""
+    if kind == "zeros":
+        return bytes(length)
+    if kind == "ones":
+        return b"\xff" * length
+    base = bytearray(keyed_content(key, length))
+    h = hashlib.sha1(("sparse" + str(key)).encode()).digest()
+    for sec in range((length + 511) // 512):
+        region = sec // 128
+        if h[region % 20] & 1 or h[(sec * 7) % 20] & 2:
+            base[sec * 512:(sec + 1) * 512] = bytes(len(base[sec * 512:(sec + 1) * 512]))
+    tail = min(length, 8192 + length % 8192)
+    base[length - tail:] = bytes(tail)
+    return bytes(base)
+
+
 # ----------------------------------------------------------------- sandbox
 def snapshot(root):
     snap = {}
